@@ -324,27 +324,25 @@ func (p *RedisProtocol) processBulkString() ([]byte, error) {
 	if l == -1 {
 		return nil, nil
 	}
+	if l < 0 {
+		return nil, newConnectError("Invalid bulk string length!")
+	}
+	// exactly l bytes, whatever they are (the slice grows with the bytes actually present), then CRLF
 	line := make([]byte, 0)
-	for {
-		err := p.is.ensureFill()
+	for int64(len(line)) < l {
+		b, err := p.is.readByte()
 		if err != nil {
 			return nil, err
 		}
-		b := p.is.Buf[p.is.count]
-		p.is.count++
-		if b == '\r' {
-			err := p.is.ensureFill()
-			if err != nil {
-				return nil, err
-			}
-			c := p.is.Buf[p.is.count]
-			p.is.count++
-			if c != '\n' {
-				return nil, newConnectError("Unexpected character!")
-			}
-			break
-		} else {
-			line = append(line, b)
+		line = append(line, b)
+	}
+	for _, expected := range []byte{'\r', '\n'} {
+		b, err := p.is.readByte()
+		if err != nil {
+			return nil, err
+		}
+		if b != expected {
+			return nil, newConnectError("Unexpected character!")
 		}
 	}
 	return line, nil
